@@ -46,7 +46,8 @@ def budget(tier):
 
 @st.composite
 def _cases(draw, tier):
-    limit = draw(st.sampled_from([None, None, 5, 60]))
+    limit = draw(st.sampled_from([None, None, None, 5, 60, 0, 0.0, 2.5]))
+    warmup = pct(draw) < 35
     salt = draw(strategies.salts)
     shape = draw(st.sampled_from(['gen', 'gre', 'gen_then', 'mix', 'mix']))
     mode = 'cbc' if tier == 'thorough' and pct(draw) < 5 else 'eb'
@@ -67,7 +68,8 @@ def _cases(draw, tier):
         doubles.append([[uni(draw, 0, 7), draw(st.sampled_from(faults.KINDS)), draw(st.booleans()),
                          draw(st.sampled_from(faults.POLICIES))] for _ in range(2)])
     return {'inst': inst, 'opts': opts, 'time_limit': limit, 'steps': steps, 'salt': salt,
-            'choices': draw(strategies.choice_lists), 'doubles': doubles, 'mode': mode}
+            'choices': draw(strategies.choice_lists), 'doubles': doubles, 'mode': mode,
+            'warmup': warmup}
 
 
 def strategy(tier):
@@ -100,6 +102,13 @@ def check_run(fr, case, plan_desc, base_texts=None):
         except Violation as v:
             raise Violation('format', '%s [%s]' % (v.detail, plan_desc))
         if b is None:
+            # no unproven solve: only the over-limit rule applies
+            if T is not None and fr.total_s is not None and fr.total_s > T:
+                if parsed['timeout'] is None or parsed['matching'] is not None:
+                    raise Violation('overlimit_run_presented', 'time limit %r, the run took %r '
+                                    'virtual seconds (%s) but the %s results show timeout=%r '
+                                    'matching=%r' % (T, fr.total_s, plan_desc, which,
+                                                     parsed['timeout'], parsed['matching']))
             continue
         shown_stats = [k for k in STAT_LINES[1:] if k in parsed['stats']]
         if parsed['matching'] is not None or shown_stats or parsed['sections']:
@@ -138,6 +147,7 @@ def run_case(case):
     inst, opts, T = case['inst'], case['opts'], case['time_limit']
     kw = dict(time_limit=T, mode=case.get('mode', 'eb'), choices=case['choices'],
               salt=case['salt'], steps_ms=case['steps'])
+    wkw = dict(kw, warmup=bool(case.get('warmup')))
     try:
         base = faults.FaultRun(inst, opts, [], **kw).run()
     except Violation as v:
@@ -148,6 +158,8 @@ def run_case(case):
     check_run(base, case, 'no fault')
     base_b = next((r for r in base.backend.records if r.status != 'Optimal'), None)
     labels = ['K=%d' % min(K, 8), 'limit' if T is not None else 'no_limit',
+              'warmup_solve_on_same_object' if case.get('warmup') else 'fresh_object',
+              'limit=%r' % (T,),
               'mode=' + case.get('mode', 'eb')]
     nruns = 1
     masking = False
@@ -169,7 +181,7 @@ def run_case(case):
         desc = ' + '.join('%s %s fault at solve %d, values=%s' % (
             'persistent' if p else 'transient', k, a + 1, pol) for a, k, p, pol in spec)
         try:
-            fr = faults.FaultRun(inst, opts, _plan(spec), **kw).run()
+            fr = faults.FaultRun(inst, opts, _plan(spec), **wkw).run()
         except Violation as v:
             if v.facet.startswith('exception:'):
                 raise Violation('exception_after_fault', '%s: %s' % (desc, v.detail), exc=v.exc)
